@@ -58,14 +58,15 @@ theorem chooseCall_identity (pre mid post : List TEvent) (ts tp : QName) (as ap 
     (hpost : ∀ e ∈ post, isBranchSub e = false)
     (hps : params = namesM Fs ++ es) (hpp : params = namesM Fp ++ ep)
     (hcs : cleanM Fs = true) (hnas : deepNoAdjM Fs = true) (hnds : (namesM Fs).Nodup)
-    (hcp : cleanM Fp = true) (hnap : deepNoAdjM Fp = true) (hndp : (namesM Fp).Nodup) :
+    (hcp : cleanM Fp = true) (hnap : deepNoAdjM Fp = true) (hndp : (namesM Fp).Nodup)
+    (hsos : subsOKM false Fs = true) (hsop : subsOKM false Fp = true) :
     chooseCall params isPlural (fun s p => if isPlural then p else s)
         (pre ++ .sub [.singular] (.start ts as :: (flattenM Fs ++ [.end_ ts])) ::
           (mid ++ .sub [.plural] (.start tp ap :: (flattenM Fp ++ [.end_ tp])) :: post)) =
       some (.ok (pre ++ ((if isPlural then .start tp ap :: (coalesce (flattenM (trimF Fp)) ++ [.end_ tp])
                           else .start ts as :: (coalesce (flattenM (trimF Fs)) ++ [.end_ ts])) ++ (mid ++ post)))) := by
-  obtain ⟨bS, hbS, htrS⟩ := translate_format_self Fs es hcs hnas hnds
-  obtain ⟨bP, hbP, htrP⟩ := translate_format_self Fp ep hcp hnap hndp
+  obtain ⟨bS, hbS, htrS⟩ := translate_format_self Fs es hcs hnas hnds hsos
+  obtain ⟨bP, hbP, htrP⟩ := translate_format_self Fp ep hcp hnap hndp hsop
   rw [← hps] at hbS
   rw [← hpp] at hbP
   obtain ⟨evS, hcallS, hemS⟩ := branchCall_elem params ts as (flattenM Fs) bS hbS
@@ -125,32 +126,63 @@ theorem sameList_eq_of_noSub : ∀ (s s' : List TEvent), (s.all fun e => match e
       rw [he, sameList_eq_of_noSub es es' hn.2 h.2]
 
 mutual
-  theorem MNode.flatten_noSub : ∀ (n : MNode), (n.flatten.all fun e => match e with | .sub _ _ => false | _ => true) = true
-    | .text _ => rfl
-    | .expr _ _ _ => rfl
-    | .elem _ _ ks => by
+  /-- no element of the message carries a directive -/
+  def MNode.plainN : MNode → Bool
+    | .elem sd _ _ ks => sd.isNone && plainM ks
+    | _ => true
+  def plainM : List MNode → Bool
+    | [] => true
+    | n :: ns => n.plainN && plainM ns
+end
+
+mutual
+  theorem MNode.subsOK_of_plain : ∀ (n : MNode) (i : Bool), n.plainN = true → n.subsOK i = true
+    | .text _, _, _ => rfl
+    | .expr _ _ _, _, _ => rfl
+    | .elem sd _ _ ks, i, h => by
+        simp only [MNode.plainN, Bool.and_eq_true, Option.isNone_iff_eq_none] at h
+        obtain ⟨rfl, hk⟩ := h
+        simp [MNode.subsOK, subsOKM_of_plain ks i hk]
+  theorem subsOKM_of_plain : ∀ (ns : List MNode) (i : Bool), plainM ns = true → subsOKM i ns = true
+    | [], _, _ => rfl
+    | n :: ns, i, h => by
+        simp only [plainM, Bool.and_eq_true] at h
+        simp [subsOKM, MNode.subsOK_of_plain n i h.1, subsOKM_of_plain ns i h.2]
+end
+
+mutual
+  theorem MNode.flatten_noSub : ∀ (n : MNode), n.plainN = true →
+      (n.flatten.all fun e => match e with | .sub _ _ => false | _ => true) = true
+    | .text _, _ => rfl
+    | .expr _ _ _, _ => rfl
+    | .elem sd _ _ ks, h => by
+        simp only [MNode.plainN, Bool.and_eq_true, Option.isNone_iff_eq_none] at h
+        obtain ⟨rfl, hk⟩ := h
         simp only [MNode.flatten, List.all_cons, List.all_append, List.all_nil, Bool.and_true, Bool.true_and]
-        exact flattenM_noSub ks
-  theorem flattenM_noSub : ∀ (ns : List MNode), ((flattenM ns).all fun e => match e with | .sub _ _ => false | _ => true) = true
-    | [] => rfl
-    | n :: ns => by
+        exact flattenM_noSub ks hk
+  theorem flattenM_noSub : ∀ (ns : List MNode), plainM ns = true →
+      ((flattenM ns).all fun e => match e with | .sub _ _ => false | _ => true) = true
+    | [], _ => rfl
+    | n :: ns, h => by
+        simp only [plainM, Bool.and_eq_true] at h
         simp only [flattenM, List.all_append, Bool.and_eq_true]
-        exact ⟨MNode.flatten_noSub n, flattenM_noSub ns⟩
+        exact ⟨MNode.flatten_noSub n h.1, flattenM_noSub ns h.2⟩
 end
 
 /-- **identity_transparent, pass and directive together**: the translation pass under the
     identity catalogue followed by `MsgDirective.__call__` under the identity catalogue -/
 theorem pass_then_msg_identity (cfg : Cfg) (ctx : Ctx) (ta : Bool) (t : QName) (a : TAttrs) (F : List MNode)
     (extra : List Str) (hc : cleanM F = true) (hna : deepNoAdjM F = true) (hnd : (namesM F).Nodup)
+    (hpl : plainM F = true)
     (hattr : cleanList cfg (.start t a :: (flattenM F ++ [.end_ t])) = true) :
     msgGenerate (namesM F ++ extra) (fun s => s)
         (trList cfg Catalog.id ctx false ta 0 (.start t a :: (flattenM F ++ [.end_ t]))) =
       .ok (.start t a :: (coalesce (flattenM (trimF F)) ++ [.end_ t])) := by
   have hns : ((TEvent.start t a :: (flattenM F ++ [.end_ t])).all fun e => match e with | .sub _ _ => false | _ => true) = true := by
     simp only [List.all_cons, List.all_append, List.all_nil, Bool.and_true, Bool.true_and]
-    exact flattenM_noSub F
+    exact flattenM_noSub F hpl
   have hs := trList_id_same cfg ctx false ta 0 _ hattr
   rw [sameList_eq_of_noSub _ _ hns hs]
-  exact msgGenerate_identity_attr t a F extra hc hna hnd
+  exact msgGenerate_identity_attr t a F extra hc hna hnd (subsOKM_of_plain F false hpl)
 
 end Genshi.I18n
